@@ -181,7 +181,7 @@ class Mon:
 
 
 def user_table(rng, builtin_keys):
-    n = rng.randint(1, 8)
+    n = rng.randint(1, 8) if rng.random() < 0.9 else rng.randint(12, 40)
     tbl = {}
     used = set()
     for i in range(n):
@@ -193,14 +193,14 @@ def user_table(rng, builtin_keys):
             b = rng.choice(builtin_keys)
             k = b + rng.choice([b[-1], b[-1] * 2, rng.choice('abcdefgmprstwxz'), b[-1] + rng.choice('abcdpst')])
         else:
-            k = ''.join(rng.choice('abcdefghklmnopqrstuvwxz') for _ in range(rng.randint(1, 4)))
+            k = ''.join(rng.choice('abcdefghklmnopqrstuvwxz') for _ in range(rng.randint(1, 4) if rng.random() < 0.9 else rng.randint(7, 14)))
             if rng.random() < 0.1:
                 k = '@' + k
         if k.lower() in used or (k.lower() in (b.lower() for b in builtin_keys) and k not in builtin_keys):
             continue
         used.add(k.lower())
         r = rng.random()
-        tag = 'u%s' % 'abcdefgh'[i]
+        tag = 'u%s' % ('abcdefgh'[i] if i < 8 else 'x' + 'abcdefghijklmnopqrstuvwxyz'[i % 26] + 'abcdefghijklmnopqrstuvwxyz'[i // 26])
         if r < 0.35:
             v = 'vp-%s:%s' % (tag, '|'.join(rng.sample(['foo', 'bar', 'baz-qux', '${1:ph}', '10px', 'a b', '#fc0'], rng.randint(1, 3))))
         elif r < 0.55:
